@@ -1,0 +1,50 @@
+//go:build verif && (verif_all || verif_c11)
+// +build verif
+// +build verif_all verif_c11
+
+package gocql
+
+// Verification hooks (build tag `verif`) for the host selection policies, third file: the token-aware
+// policy with a SESSION KEYSPACE whose replication metadata is known (what Init gives it from a Session),
+// so that AddHost / RemoveHost / KeyspaceChanged recompute replica tables through the real code path
+// (updateReplicas -> getStrategy -> replicaMap), and a read-only snapshot of a keyspace's replica table.
+// Add-only.
+
+import "fmt"
+
+// VerifTAKeyspaces replaces what Init took from the Session: the name of the session keyspace and the
+// keyspace metadata lookup. `lookup` returns the strategy class and the replication_factor option of a
+// keyspace, ok=false = the keyspace is unknown (KeyspaceMetadata returns an error).
+func VerifTAKeyspaces(p HostSelectionPolicy, sessionKs string, lookup func(ks string) (class string, rf interface{}, ok bool)) {
+	t := p.(*tokenAwareHostPolicy)
+	t.mu.Lock()
+	defer t.mu.Unlock()
+	t.getKeyspaceName = func() string { return sessionKs }
+	t.getKeyspaceMetadata = func(ks string) (*KeyspaceMetadata, error) {
+		class, rf, ok := lookup(ks)
+		if !ok {
+			return nil, fmt.Errorf("verif: keyspace %q does not exist", ks)
+		}
+		return &KeyspaceMetadata{Name: ks, StrategyClass: class,
+			StrategyOptions: map[string]interface{}{"class": class, "replication_factor": rf}}, nil
+	}
+}
+
+// VerifTAReplicaTable returns the replica table the policy currently holds for a keyspace
+// (tokens as strings, ascending as stored), ok=false if it holds none.
+func VerifTAReplicaTable(p HostSelectionPolicy, keyspace string) (tokens []string, hosts [][]*HostInfo, ok bool) {
+	t := p.(*tokenAwareHostPolicy)
+	meta := t.getMetadataReadOnly()
+	if meta == nil {
+		return nil, nil, false
+	}
+	tab, ok := meta.replicas[keyspace]
+	if !ok {
+		return nil, nil, false
+	}
+	for _, e := range tab {
+		tokens = append(tokens, e.token.String())
+		hosts = append(hosts, append([]*HostInfo(nil), e.hosts...))
+	}
+	return tokens, hosts, true
+}
